@@ -65,14 +65,18 @@ Definition obs_ok (s : st) (o : outcome) (x : obs) : bool :=
   | _, _ => false
   end.
 
-(** index (from 0) of the first step whose observation differs, if any *)
-Fixpoint first_diff (s : st) (h : list (op * obs)) (i : nat) : option nat :=
+(** is a memoised cache present?  compared with [model._cache is not None] after EVERY step (third round:
+    an edit other than scale_parameter(s) never builds one, cf. PrequeryProofs / seeded/C03-8) *)
+Definition cached (s : st) : bool := match s_cache s with Some _ => true | None => false end.
+
+(** index (from 0) of the first step whose observation (or memo presence) differs, if any *)
+Fixpoint first_diff (s : st) (h : list (op * obs * bool)) (i : nat) : option nat :=
   match h with
   | [] => None
-  | (o, x) :: rest =>
+  | (o, x, cb) :: rest =>
     let '(s', out) := step s o in
-    if obs_ok s' out x then first_diff s' rest (S i) else Some i
+    if obs_ok s' out x && Bool.eqb (cached s') cb then first_diff s' rest (S i) else Some i
   end.
 
-Definition history_ok (h : list (op * obs)) : bool :=
+Definition history_ok (h : list (op * obs * bool)) : bool :=
   match first_diff init h 0 with None => true | Some _ => false end.
